@@ -87,10 +87,19 @@ def case_at(name, idx):
     return M, bds
 
 
-def polyhedron(M, bds):
+def polyhedron(M, bds, layout=0):
+    """layout 0: C-ordered copy, 1: Fortran-ordered, 2: non-contiguous view (memory layout is not part of the value)."""
     variables = [puan.variable.support_vector_variable()] + [puan.variable(f"x{j}", bd) for j, bd in enumerate(bds)]
     index = [puan.variable(f"r{i}") for i in range(M.shape[0])]
-    return pnd.ge_polyhedron(M.copy(), variables=variables, index=index)
+    if layout == 1:
+        data = np.asfortranarray(M)
+    elif layout == 2:
+        big = np.zeros((M.shape[0], 2 * M.shape[1]), dtype=M.dtype)
+        big[:, ::2] = M
+        data = big[:, ::2]
+    else:
+        data = M.copy()
+    return pnd.ge_polyhedron(data, variables=variables, index=index)
 
 
 def shards_for(names, per_shard):
